@@ -79,6 +79,9 @@ func deferredClosures(fn *ssa.Function) []*ssa.Function {
 		// a function literal without free variables is a plain function value
 		if f, ok := d.Call.Value.(*ssa.Function); ok && f.Parent() == fn {
 			out = append(out, f)
+		} else if ok && f.Parent() == nil && f.Pkg == fn.Pkg && len(f.Blocks) > 0 && f.Signature.Recv() != nil {
+			// `defer recv.method(&local)`: the deferred body extracted into a method of the same package
+			out = append(out, f)
 		}
 	})
 	return out
